@@ -262,7 +262,55 @@ def run_objarg(ctx, p):
     ctx.nontrivial('objarg', cname, p.get('other', p.get('defect')), p['form'], len(p.get('arrs', [])))
 
 
-RUNNERS = {'ctor': run_ctor, 'pred': run_pred, 'scalar': run_scalar, 'objarg': run_objarg}
+def CALLS():
+    """other ways in which a value can reach an object: name -> (class of the result, builder(sm, base, v) -> object)"""
+    sk = ref.skew
+    ska = ref.skewa
+    one = lambda n: (lambda v: np.asarray(v[:n], dtype=np.float64))
+    return {
+        # exponential constructors given an element of the WRONG algebra (right algebra: decided by C03)
+        'SE3.Exp(3-vector)': ('SE3', lambda sm, b, v: sm.SE3.Exp(v[:3])), 'SE3.Exp(3x3 skew)': ('SE3', lambda sm, b, v: sm.SE3.Exp(sk(v[:3]))),
+        'SE3.Exp(2x3)': ('SE3', lambda sm, b, v: sm.SE3.Exp(v[:6].reshape(2, 3))), 'SE3.Exp([[3-vector]])': ('SE3', lambda sm, b, v: sm.SE3.Exp([list(v[:3])])),
+        'SO3.Exp(6-vector)': ('SO3', lambda sm, b, v: sm.SO3.Exp(v[:6])), 'SO3.Exp(4x4 skewa)': ('SO3', lambda sm, b, v: sm.SO3.Exp(ska(v[:6]))),
+        'SE2.Exp(1-vector)': ('SE2', lambda sm, b, v: sm.SE2.Exp(v[:1])), 'SE2.Exp(2x2 skew)': ('SE2', lambda sm, b, v: sm.SE2.Exp(sk(v[:1]))),
+        'SO2.Exp(3-vector)': ('SO2', lambda sm, b, v: sm.SO2.Exp(v[:3])), 'SO2.Exp(3x3 skewa)': ('SO2', lambda sm, b, v: sm.SO2.Exp(ska(v[:3]))),
+        # a matrix where the first of several separate scalars is expected
+        'SE3(T, 0, 0)': ('SE3', lambda sm, b, v: sm.SE3(b.trotx(v[0], t=v[1:4]), 0, 0)), 'SE3(2I, 0, 0)': ('SE3', lambda sm, b, v: sm.SE3(2 * np.eye(4), 0, 0)),
+        'SE2(T, 0)': ('SE2', lambda sm, b, v: sm.SE2(b.trot2(v[0], t=v[1:3]), 0)), 'SE2(2I, 0, 0)': ('SE2', lambda sm, b, v: sm.SE2(2 * np.eye(3), 0, 0)),
+        # the two-argument twist constructors given row / column vectors
+        'Twist3(row, row)': ('Twist3', lambda sm, b, v: sm.Twist3(v[:3].reshape(1, 3), v[3:6].reshape(1, 3))),
+        'Twist3(col, col)': ('Twist3', lambda sm, b, v: sm.Twist3(v[:3].reshape(3, 1), v[3:6].reshape(3, 1))),
+        'Twist2(row, w)': ('Twist2', lambda sm, b, v: sm.Twist2(v[:2].reshape(1, 2), float(v[2]))),
+        # normalisation switched off while checking stays on (the default): a non-unit quaternion must not get in
+        'UnitQuaternion(s, v, norm=False)': ('UnitQuaternion', lambda sm, b, v: sm.UnitQuaternion(float(v[0]), v[1:4], norm=False)),
+        'UnitQuaternion(Nx4, norm=False)': ('UnitQuaternion', lambda sm, b, v: sm.UnitQuaternion(np.vstack([v[:4], v[2:6]]), norm=False)),
+        'UnitQuaternion(4-vector, norm=False)': ('UnitQuaternion', lambda sm, b, v: sm.UnitQuaternion(v[:4], norm=False)),
+    }
+
+
+def run_call(ctx, p):
+    """see CALLS(): either an exception or an object every element of which is a member of its class"""
+    import spatialmath.base as base
+    name = p['call']
+    cname, f = CALLS()[name]
+    v = np.asarray(p['v'], dtype=np.float64)
+    sig = dict(api=cname, call=name)
+    try:
+        X = f(S(), base, v)
+    except Exception:
+        ctx.ok('ctor.reject')
+        ctx.cell('call', name, 'raises')
+        ctx.nontrivial('call', name, [float('%.6g' % t) for t in v])
+        return
+    d_ = getattr(X, 'data', None)
+    ok = type(X).__name__ == cname and isinstance(d_, list) and len(d_) >= 1 and all(member_ok(cname, x) for x in d_)
+    ctx.judge('ctor.reject', ok, dict(sig, kind='object_holds_nonmember'),
+              lambda: '%s with v=%s returned a %s holding %s' % (name, v, type(X).__name__, core.short(d_, 300)))
+    ctx.cell('call', name, 'accepts')
+    ctx.nontrivial('call', name, [float('%.6g' % t) for t in v])
+
+
+RUNNERS = {'ctor': run_ctor, 'pred': run_pred, 'scalar': run_scalar, 'objarg': run_objarg, 'call': run_call}
 
 
 def REACH():
@@ -512,9 +560,12 @@ def run(ctx):
                                          defect='none' if valid else defect, src='ref'))
     for _ in range(ctx.scale(3500, 50000)):
         drive(RUNNERS, ctx, 'scalar', scalar_case(rng))
+    k = 0
+    for name in CALLS():
+        for _ in range(3 if ctx.tier == 'quick' else 40):
+            drive(RUNNERS, ctx, 'call', dict(call=name, v=gen.vec(rng, 6, 1e-1, 3.0)))
     # library objects and degenerate vectors as constructor arguments: every (class, other class) pair, 1 and 2 values, bare / in a list
     from .c10_list import element as el10, CLASSES as C10, EXTRA as X10
-    k = 0
     for cname in SHAPES:
         for d in C10 + X10:
             for nvals in (1, 2):
